@@ -384,7 +384,10 @@ Proof.
     intros k ta va tb vb Ha Hb. eapply D; right; eassumption.
 Qed.
 
-Theorem enc_sig_inj s1 s2 : wf_sig s1 -> wf_sig s2 -> same_decl s1 s2 -> enc_sig s1 = enc_sig s2 -> s1 = s2.
+(* the declared types need only agree when the type identifiers agree (the type identifier is read
+   from the stream before the parameters)                                                       *)
+Theorem enc_sig_inj_tid s1 s2 : wf_sig s1 -> wf_sig s2 -> (ss_tid s1 = ss_tid s2 -> same_decl s1 s2) ->
+  enc_sig s1 = enc_sig s2 -> s1 = s2.
 Proof.
   destruct s1 as [tk1 tid1 a1], s2 as [tk2 tid2 a2]. unfold wf_sig, same_decl, enc_sig. cbn [ss_task ss_tid ss_args].
   intros [T1 [C1 [N1 A1]]] [T2 [C2 [N2 A2]]] D E.
@@ -392,14 +395,12 @@ Proof.
   fold argenc in E'. fold arg_ok in A1, A2.
   assert (Lh : forall l, Forall arg_ok l -> lowhead (flat_map argenc l)).
   { intros l F. destruct l as [|a l]; [exact I|]. rewrite argenc_cons. apply low_str. }
-  assert (Tid : forall tid a, clean tid -> tid <> [] -> exists b r, tid ++ a = b :: r /\ (32 <= b)%N).
-  { intros tid a C N. destruct tid as [|b tid]; [congruence|]. inversion C. subst. exists b, (tid ++ a). split; [reflexivity|assumption]. }
   assert (Rest : forall tida tidb la lb, clean tida -> clean tidb -> Forall arg_ok la -> Forall arg_ok lb ->
-                   (forall k t1 v1 t2 v2, In (k, t1, v1) la -> In (k, t2, v2) lb -> t1 = t2) ->
+                   (tida = tidb -> forall k t1 v1 t2 v2, In (k, t1, v1) la -> In (k, t2, v2) lb -> t1 = t2) ->
                    tida ++ flat_map argenc la = tidb ++ flat_map argenc lb -> tida = tidb /\ la = lb).
   { intros tida tidb la lb Ca Cb Fa Fb Dd Ee.
     destruct (clean_end tida tidb _ _ Ca Cb (Lh la Fa) (Lh lb Fb) Ee) as [-> El].
-    split; [reflexivity|]. apply args_inj; assumption. }
+    split; [reflexivity|]. apply args_inj; try assumption. apply Dd. reflexivity. }
   destruct tk1 as [t1|], tk2 as [t2|].
   - cbn [app] in E'. pose proof (cons_eq_tl _ _ _ _ E') as E''.
     destruct (enc_inj TObj I t1 t2 _ _ T1 T2 I I E'') as [-> Er].
@@ -410,6 +411,9 @@ Proof.
     cbn [app] in E'. injection E' as Eb _. subst b. cbv in Lb. apply Lb. reflexivity.
   - cbn [app] in E'. destruct (Rest tid1 tid2 a1 a2 C1 C2 A1 A2 D E') as [-> ->]. reflexivity.
 Qed.
+
+Theorem enc_sig_inj s1 s2 : wf_sig s1 -> wf_sig s2 -> same_decl s1 s2 -> enc_sig s1 = enc_sig s2 -> s1 = s2.
+Proof. intros W1 W2 D. apply enc_sig_inj_tid; try assumption. intros _. exact D. Qed.
 
 (* the domain is tight: the two families named in the property collide *)
 Example str_collision_outside_domain :
